@@ -41,7 +41,9 @@ ASSUMPTIONS = [
     "single thread, single contextvars.Context per history",
 ]
 EXHAUSTIVE = {"quick": False, "thorough": False}
-FINDING_CLASSES = {1: "print-config-pending", 2: "lazy-print-shtab-key", 3: "class-help-skip-shared"}
+FINDING_CLASSES = {1: "print-config-pending", 2: "lazy-print-shtab-key", 3: "class-help-skip-shared",
+                   4: "dataclass-default-carried"}
+FAC = "c09_classes.Fac"  # a callable class that is no Base
 
 WORDS = ["q", "w", "hey"]
 FLAGSETS = ["skip_null", "comments", "skip_default", "skip_null,comments", "", "bogus", "skip_default,skip_null"]
@@ -51,7 +53,7 @@ FLAGSETS_NO_SD = [f for f in FLAGSETS if "skip_default" not in f]
 
 
 def flagsets(decl):
-    return FLAGSETS_NO_SD if decl["root"]["cls"] else FLAGSETS
+    return FLAGSETS_NO_SD if decl["root"]["cls"] or decl["root"].get("dc") else FLAGSETS
 
 
 # ------------------------------------------------------------------------------------------------
@@ -68,6 +70,10 @@ def gen_decl(rng):
             root["links"].append(["k", "model.init_args.a"])
     if rng.random() < 0.35:
         root["cls"].append(["cb", True])
+    # dc: option d : Optional[Data] (dataclass a:int=0, b:int=0); sig: the class / Callable / dataclass options are
+    # added from a signature (add_class_arguments(Holder)), so that action.sub_add_kwargs is a non-empty dict
+    root["dc"] = rng.random() < 0.4
+    root["sig"] = root["dc"] or (bool(root["cls"]) and rng.random() < 0.5)
     subs = []
     subreq = False
     if rng.random() < 0.55:
@@ -131,10 +137,35 @@ def gen_cfg_items(rng, decl):
             n, k = rng.choice(spd["opts"])
             items.append([sn + "." + n, val_for(rng, k, 0.08)])
         elif x < 0.9 and root["cls"]:
-            items.append([rng.choice(root["cls"])[0], rng.choice(["SubA", "SubB", "Base", "SubA", "Nope"])])
+            items += gen_cls_items(rng, rng.choice(root["cls"]), 0.08)
         elif x < 0.95:
             items.append(["zz", "1"])
+    if root.get("dc") and rng.random() < 0.45:
+        items.insert(rng.randrange(len(items) + 1), gen_d_item(rng, 0.08))
     return dedupe(items)
+
+
+def gen_cls_items(rng, co, p_bad):
+    """dict-like source: a class option (the class first, then parameters of it), or parameters alone (init_args
+    without class_path: completed from the previous / default class)"""
+    cn, cal = co
+    x = rng.random()
+    cls = rng.choice(["SubA", "SubB", "Base", "SubA", FAC if cal or rng.random() < 0.3 else "SubB", "Nope"])
+    params = {"SubA": ["a", "c"], "SubB": ["a", "b"], "Base": ["a"], FAC: ["a", "z"], "Nope": ["a"]}[cls]
+    res = [] if x < 0.25 else [[cn, cls]]
+    if x < 0.25:
+        params = ["a", "a", "c", "b"]
+    if x < 0.6:
+        par = rng.choice(params + ["zz"] if rng.random() < 0.1 else params)
+        res.append([cn + "." + par, val_for(rng, "str" if par == "b" else "int", p_bad)])
+    return res
+
+
+def gen_d_item(rng, p_bad):
+    """dict-like source: d = {"a": A, "b": B} with one or both fields, rendered "A,B" (empty = field not given)"""
+    a = val_for(rng, "int", p_bad) if rng.random() < 0.6 else ""
+    b = val_for(rng, "int", p_bad) if (not a or rng.random() < 0.5) else ""
+    return ["d", a + "," + b]
 
 
 def gen_argv(rng, decl):
@@ -155,11 +186,11 @@ def gen_argv(rng, decl):
         elif x < 0.72 and root["cls"]:
             cn, cal = rng.choice(root["cls"])
             y = rng.random()
-            cls = rng.choice(["SubA", "SubB", "SubA", "Nope"])
+            cls = rng.choice(["SubA", "SubB", "SubA", "Nope", FAC if cal or rng.random() < 0.3 else "Base"])
             if y < 0.5:
                 toks.append(["opt", cn, cls])
                 if rng.random() < 0.6 and cls != "Nope":
-                    par = rng.choice(["a", "c", "b", "zz"])
+                    par = rng.choice(["a", "c", "b", "zz", "a", "z"])
                     toks.append(["opt", cn + "." + par, val_for(rng, "str" if par == "b" else "int")])
             elif y < 0.7:
                 toks.append(["opt", cn + ".a", val_for(rng, "int")])
@@ -174,6 +205,11 @@ def gen_argv(rng, decl):
             toks.append(["opt", "zz", "1"] if rng.random() < 0.7 else ["flag", "zz"])
         elif x < 0.9 and "r" in root["req"]:
             toks.append(["opt", "r", val_for(rng, "int", 0.05)])
+        elif x >= 0.9 and root.get("dc"):
+            toks.append(["opt", "d." + rng.choice(["a", "b", "b"]), val_for(rng, "int", 0.08)])
+    if root.get("dc") and rng.random() < 0.35:
+        for _ in range(rng.choice([1, 1, 2])):
+            toks.insert(rng.randrange(len(toks) + 1), ["opt", "d." + rng.choice(["a", "b"]), val_for(rng, "int", 0.08)])
     if "r" in root["req"] and rng.random() < 0.7 and not any(t[0] == "opt" and t[1] == "r" for t in toks):
         toks.insert(rng.randrange(len(toks) + 1), ["opt", "r", "5"])
     if any(t[0] == "opt" and t[1].endswith(".help") for t in toks):
@@ -198,9 +234,16 @@ def gen_items(rng, decl, valid_only):
         need = nm in root["req"]
         if rng.random() < (0.85 if need else 0.45) or (need and valid_only):
             items.append([nm, val_for(rng, k, 0.0 if valid_only else 0.1)])
-    if root["cls"] and rng.random() < 0.4:
-        cn, _ = rng.choice(root["cls"])
-        items.append([cn, rng.choice(["SubA", "SubB", "Base"]) if valid_only or rng.random() < 0.85 else "Nope"])
+    cls_items = []
+    if root["cls"] and rng.random() < 0.45:
+        co = rng.choice(root["cls"])
+        if valid_only:
+            cls_items = [[co[0], rng.choice(["SubA", "SubB", "Base"])]]
+        else:
+            cls_items = gen_cls_items(rng, co, 0.08)
+    d_item = None
+    if root.get("dc") and rng.random() < 0.45:
+        d_item = gen_d_item(rng, 0.0 if valid_only else 0.08)
     if decl["subs"] and (rng.random() < (0.75 if decl["subreq"] else 0.35) or (decl["subreq"] and valid_only)):
         sn, spd = rng.choice(decl["subs"])
         for nm, k in spd["opts"]:
@@ -213,6 +256,11 @@ def gen_items(rng, decl, valid_only):
         if rng.random() < 0.08:
             items.append(["print_shtab", "bash"])
     rng.shuffle(items)
+    if d_item:
+        items.insert(rng.randrange(len(items) + 1), d_item)
+    if cls_items:   # the class before its parameters, kept together
+        at = rng.randrange(len(items) + 1)
+        items[at:at] = cls_items
     return items
 
 
@@ -245,7 +293,8 @@ def gen_op(rng, decls):
         return {"p": p, "op": "get_defaults"}
     if x < 0.9:
         return {"p": p, "op": "dump", "items": gen_items(rng, d, True), "corrupt": rng.random() < 0.2,
-                "flags": {"skip_none": rng.random() < 0.5, "skip_default": rng.random() < 0.3 and not d["root"]["cls"],
+                "flags": {"skip_none": rng.random() < 0.5,
+                          "skip_default": rng.random() < 0.3 and not d["root"]["cls"] and not d["root"].get("dc"),
                           "skip_validation": rng.random() < 0.3}}
     if x < 0.96:
         return {"p": p, "op": "validate", "items": gen_items(rng, d, True), "corrupt": rng.random() < 0.3}
@@ -273,6 +322,10 @@ CB = {"root": {"cfg": True, "opts": [["k", "int"], ["s", "str"]], "req": [], "cl
       "subreq": False, "subs": []}
 MODEL = {"root": {"cfg": True, "opts": [["k", "int"], ["s", "str"]], "req": [], "cls": [["model", False]], "links": []},
          "subreq": False, "subs": []}
+DC = {"root": {"cfg": True, "opts": [["k", "int"], ["s", "str"]], "req": [], "cls": [], "links": [], "sig": True, "dc": True},
+      "subreq": False, "subs": []}
+SIG_MC = {"root": {"cfg": True, "opts": [["k", "int"], ["s", "str"]], "req": [], "cls": [["model", False], ["cb", True]],
+                   "links": [], "sig": True, "dc": True}, "subreq": False, "subs": []}
 # the refutation witnesses of coq/Properties/C09.v (C09_*_refuted), in FINDING_CLASSES order; the last call is the
 # one whose answer depends on the history
 WITNESSES = [
@@ -285,6 +338,9 @@ WITNESSES = [
     ("class-help-skip-shared", [CB, MODEL],
      [{"p": 0, "op": "parse_args", "argv": [["opt", "cb.help", "SubA"]]},
       {"p": 1, "op": "parse_args", "argv": [["opt", "model.help", "SubA"]]}]),
+    ("dataclass-default-carried", [DC, PLAIN],
+     [{"p": 0, "op": "parse_args", "argv": [["opt", "d.a", "3"]]},
+      {"p": 0, "op": "parse_args", "argv": [["opt", "d.b", "2"]]}]),
 ]
 _FX = {}
 
@@ -344,6 +400,40 @@ def scripted_cases():
         {"p": 0, "op": "parse_string", "items": [["k", "5"], ["fit.lr", "2"]]},
         {"p": 0, "op": "parse_args", "argv": []},
         {"p": 0, "op": "get_defaults"}]))
+    # per-action carried state of signature-derived options (action.sub_add_kwargs: default / skip / linked_targets):
+    # a Base subclass, then a callable class that is no Base with its first parameter, through every kind of call
+    hs.append(([SIG_MC, PLAIN], [
+        {"p": 0, "op": "parse_args", "argv": [["opt", "cb", "SubA"], ["opt", "cb.c", "3"]]},
+        {"p": 0, "op": "parse_args", "argv": [["opt", "cb", FAC], ["opt", "cb.a", "3"]]},
+        {"p": 0, "op": "parse_object", "items": [["cb", "SubB"], ["cb.b", "q"]]},
+        {"p": 0, "op": "parse_object", "items": [["cb", FAC], ["cb.a", "2"], ["cb.z", "7"]]},
+        {"p": 0, "op": "parse_string", "items": [["model", "SubA"], ["model.a", "2"]]},
+        {"p": 0, "op": "parse_args", "argv": [["opt", "model", FAC]]},
+        {"p": 0, "op": "parse_args", "argv": [["opt", "cb.help", FAC]]},
+        {"p": 0, "op": "parse_string", "items": [["cb", FAC], ["cb.a", "12"]]}]))
+    # a value of d given piecewise, through different sources, with failures in between
+    hs.append(([SIG_MC, DC], [
+        {"p": 0, "op": "parse_args", "argv": [["opt", "d.a", "3"], ["opt", "d.b", "7"], ["opt", "k", "bad"]]},
+        {"p": 0, "op": "parse_args", "argv": [["opt", "d.b", "2"]]},
+        {"p": 1, "op": "parse_object", "items": [["d", "12,"]]},
+        {"p": 1, "op": "parse_string", "items": [["d", ",7"], ["zz", "1"]]},
+        {"p": 1, "op": "parse_args", "argv": [["opt", "d.b", "2"], ["flag", "print_config"]]},
+        {"p": 0, "op": "validate", "items": [["d", "0,3"]], "corrupt": False},
+        {"p": 0, "op": "parse_args", "argv": [["cfg", [["d", "2,"]]], ["opt", "d.b", "bad"]]},
+        {"p": 0, "op": "parse_object", "items": [["d", ",-4"]]},
+        {"p": 1, "op": "dump", "items": [["d", "7,7"]], "corrupt": False,
+         "flags": {"skip_none": False, "skip_default": False, "skip_validation": False}},
+        {"p": 1, "op": "parse_args", "argv": [["opt", "d.a", "0"]]}]))
+    # a failing --cfg after class options on the same line, then configs that lean on previous values
+    # (init_args without class_path) on this and on the other parser
+    hs.append(([MODEL, SIG_MC], [
+        {"p": 0, "op": "parse_args", "argv": [["opt", "model", "SubB"], ["opt", "model.b", "q"], ["cfg", [["k", "bad"]]]]},
+        {"p": 0, "op": "parse_string", "items": [["model.a", "7"]]},
+        {"p": 1, "op": "parse_string", "items": [["model.a", "3"]]},
+        {"p": 1, "op": "parse_args", "argv": [["opt", "cb", "SubA"], ["opt", "cb.c", "2"], ["cfg", [["model", "Nope"]]]]},
+        {"p": 1, "op": "parse_object", "items": [["cb.a", "7"]]},
+        {"p": 0, "op": "parse_args", "argv": [["cfg", [["model.a", "2"]]]]},
+        {"p": 1, "op": "parse_string", "items": [["d", "3,"]]}]))
     # a request consumed by an EMPTY --cfg inside parse_args dumps nothing (dump_kwargs stays unset)
     hs.append(([plain, subs], [
         {"p": 0, "op": "parse_args", "argv": [["flag", "print_config"], ["opt", "k", "5"], ["cfg", []], ["opt", "k", "bad"]]},
@@ -430,11 +520,12 @@ def g_kind(k):
 
 
 def g_pdecl(pd):
-    return "{| pd_cfg := %s; pd_opts := %s; pd_req := %s; pd_cls := %s |}" % (
+    return "{| pd_cfg := %s; pd_opts := %s; pd_req := %s; pd_cls := %s; pd_dc := %s |}" % (
         g_bool(pd["cfg"]),
         g_list([g_pair(g_str(n), g_kind(k)) for n, k in pd["opts"]], "(str * kind)"),
         g_list([g_str(r) for r in pd["req"]], "str"),
-        g_list(["{| co_name := %s; co_callable := %s |}" % (g_str(n), g_bool(c)) for n, c in pd["cls"]], "copt"))
+        g_list(["{| co_name := %s; co_callable := %s |}" % (g_str(n), g_bool(c)) for n, c in pd["cls"]], "copt"),
+        g_bool(bool(pd.get("dc"))))
 
 
 def g_decl(d):
@@ -461,6 +552,19 @@ def g_toks(ts):
     return g_list([g_tok(t) for t in ts], "tok")
 
 
+def g_dv(d):
+    return "None" if d is None else "(Some (%s, %s))" % (g_str(d[0]), g_str(d[1]))
+
+
+def cfg_d(items):
+    """the value of d in the cfg that make_cfg (runner) builds from valid items: dataclass defaults + given fields"""
+    for k, v in items:
+        if k == "d":
+            a, b = v.split(",")
+            return [a or "0", b or "0"]
+    return None
+
+
 def g_op(o):
     k = o["op"]
     if k == "parse_args":
@@ -475,10 +579,10 @@ def g_op(o):
         body = "GetDefaults"
     elif k == "dump":
         f = o["flags"]
-        body = "(Dump %s %s %s %s)" % (g_bool(o.get("corrupt", False)), g_bool(f["skip_none"]), g_bool(f["skip_default"]),
-                                     g_bool(f["skip_validation"]))
+        body = "(Dump %s %s %s %s %s)" % (g_dv(cfg_d(o["items"])), g_bool(o.get("corrupt", False)), g_bool(f["skip_none"]),
+                                        g_bool(f["skip_default"]), g_bool(f["skip_validation"]))
     elif k == "validate":
-        body = "(Validate %s)" % g_bool(o.get("corrupt", False))
+        body = "(Validate %s %s)" % (g_dv(cfg_d(o["items"])), g_bool(o.get("corrupt", False)))
     else:
         body = "Instantiate"
     return "{| op_p := %s; op_k := %s |}" % (g_nat(o["p"]), body)
@@ -521,9 +625,10 @@ def g_state(st):
     dk = "None" if ctx["dump_kwargs"] is None else "(Some (%s, %s))" % (g_bool(ctx["dump_kwargs"][0]), g_bool(ctx["dump_kwargs"][1]))
     args = g_list([g_list([g_pair(g_str(n), g_toks(ts)) for n, ts in pa], "(str * list tok)") for pa in st["args"]],
                   "(list (str * list tok))")
-    return ("{| os_pending := %s; os_args := %s; os_shtab := %s; os_pk := %s; os_sap := %s; os_dk := %s; "
+    return ("{| os_pending := %s; os_args := %s; os_shtab := %s; os_ddef := %s; os_pk := %s; os_sap := %s; os_dk := %s; "
             "os_help_skip := %s; os_unexplained := %s |}") % (
-        g_list(pend, "pending"), args, g_list([g_bool(b) for b in st["shtab"]], "bool"), pk, sap, dk,
+        g_list(pend, "pending"), args, g_list([g_bool(b) for b in st["shtab"]], "bool"),
+        g_list([g_dv(x) for x in st["ddef"]], "(option dv)"), pk, sap, dk,
         g_bool(st["help_skip"]), g_bool(unexplained))
 
 
@@ -536,8 +641,8 @@ def g_answer(a):
 
 def term(case, obs):
     i = case["at"]
-    return ("{| c_fx := {| fx_pc := %s; fx_sh := %s; fx_hs := %s |}; c_decls := %s; c_prefix := %s; c_op := %s; c_pre := %s; c_post := %s; c_reused := %s; c_fresh := %s |}") % (
-        g_bool(obs["fx"][0]), g_bool(obs["fx"][1]), g_bool(obs["fx"][2]),
+    return ("{| c_fx := {| fx_pc := %s; fx_sh := %s; fx_hs := %s; fx_dd := %s |}; c_decls := %s; c_prefix := %s; c_op := %s; c_pre := %s; c_post := %s; c_reused := %s; c_fresh := %s |}") % (
+        g_bool(obs["fx"][0]), g_bool(obs["fx"][1]), g_bool(obs["fx"][2]), g_bool(obs["fx"][3]),
         g_list([g_decl(d) for d in case["parsers"]], "decl"),
         g_list([g_op(o) for o in case["ops"][:i]], "op"),
         g_op(case["ops"][i]), g_state(obs["pre"]), g_state(obs["post"]), g_answer(obs["out"]), g_answer(obs["fresh"]))
